@@ -18,6 +18,15 @@ type Locker = sync.Locker
 type Map = sync.Map
 type Cond = sync.Cond
 
+// The rest of package sync's API is passed through unchanged, so that an edit of inbucket that
+// starts using it still builds under the shim.  A sync.Cond works on a shimmed Mutex through the
+// Locker interface: Wait releases it (no scheduling point), blocks durably in the runtime, and
+// re-acquires it through Lock (a scheduling point).
+func NewCond(l Locker) *Cond                                   { return sync.NewCond(l) }
+func OnceFunc(f func()) func()                                 { return sync.OnceFunc(f) }
+func OnceValue[T any](f func() T) func() T                     { return sync.OnceValue(f) }
+func OnceValues[T1, T2 any](f func() (T1, T2)) func() (T1, T2) { return sync.OnceValues(f) }
+
 type Mutex struct {
 	real sync.Mutex
 	held bool
